@@ -144,7 +144,7 @@ func runExchangeOpt(l *lab.SocketLab, lc labCfg, ec *exchangeCase, c *conn, hold
 		script.Framing = "none"
 	}
 	script.Hold = hold != nil
-	script.Interim = ec.Interim
+	script.Interim, script.InterimCode = ec.Interim, ec.InterimCode
 	rn, tn := lc.names()
 	switch ec.Backend {
 	case "echo":
